@@ -86,28 +86,30 @@ def text_section(name):
 
 _ALPHA = 'ABCDEFGHIJKLMNOPQRSTUVWXYZabcdefghijklmnopqrstuvwxyz0123456789_+-.*\''
 _token = st.text(alphabet=_ALPHA, min_size=1, max_size=6)
-_atype = st.one_of(st.sampled_from(['P5', 'Qd', 'SC4', 'TN6d', 'C1', 'CT1', 'opls_135']), _token)
-_resname = st.one_of(st.sampled_from(['ALA', 'GLY', 'LYS', 'POPC', 'W', 'X']), _token)
-_atomname = st.one_of(st.sampled_from(['BB', 'SC1', 'SC2', 'CA', 'N', "O5'", 'H*', 'C1']), _token)
-_number = st.one_of(
-    st.sampled_from([0.0, -0.0, 1.0, -1.0, 72.0, 0.5, -0.5, 1e-05, -2.5e-07, 3.3e-10, 1e+16, 12.011, 1.008,
-                     0, 1, -1, 72, 36]),
+# Flat pools keep Hypothesis cheap (one draw per field); arbitrary tokens and
+# arbitrary floats are injected per case as a few "overrides" (see below).
+_ATYPES = ['P5', 'Qd', 'SC4', 'TN6d', 'C1', 'CT1', 'opls_135', "a'b", 'x.y', '+Q', '-q*', 'P5']
+_RESNAMES = ['ALA', 'GLY', 'LYS', 'POPC', 'W', 'X', 'ALA', 'r-1', "N'", '0']
+_ATOMNAMES = ['BB', 'SC1', 'SC2', 'CA', 'N', "O5'", 'H*', 'C1', 'BB', '+N', '-C', '1H', 'X_1.2']
+_NUMBERS = [0.0, -0.0, 1.0, -1.0, 72.0, 0.5, -0.5, 1e-05, -2.5e-07, 3.3e-10, 1e+16, 12.011, 1.008, 0.333,
+            -0.8476, 0.1, 1e-323, 123456789.125, 0, 1, -1, 72, 36, 0.0, 1.0, 72.0]
+_PARAM_POOL = ['1', '2', '0.47', '1250', '180', '1e-05', 'gb_1', 'kb', 'C6', '-1', '0.0', '1.50', '1', '2',
+               1, 2, 6, 1250, -3, 0, 0.47, 1e-05, 180.0, -0.5, 2500000.0, 1e+16, 'a.b*c', "x'"]
+_atype = st.sampled_from(_ATYPES)
+_resname = st.sampled_from(_RESNAMES)
+_atomname = st.sampled_from(_ATOMNAMES)
+_number = st.sampled_from(_NUMBERS)
+_param = st.sampled_from(_PARAM_POOL)
+_any_float = st.one_of(
     st.floats(min_value=-10, max_value=10, allow_nan=False, allow_infinity=False),
     st.floats(min_value=-1e-4, max_value=1e-4, allow_nan=False, allow_infinity=False),
-)
-_param = st.one_of(
-    st.sampled_from(['1', '2', '0.47', '1250', '180', '1e-05', 'gb_1', 'kb', 'C6', '-1', '0.0', '1.50']),
-    st.sampled_from(['1', '2', '0.47', '1250', '180', '1e-05', 'gb_1', 'kb', 'C6', '-1', '0.0', '1.50']),
-    _token,
-    st.integers(-3, 3000),
-    _number,
+    st.floats(allow_nan=False, allow_infinity=False),
 )
 _TAGS = ['FLEXIBLE', 'POSRES', 'A', 'B']
 _GROUPS = [None, None, '', 'g1', 'Side chain bonds', 'b; x', 'BB']
-_comment = st.one_of(
-    st.sampled_from(['a comment', 'x', 'BB-SC1 ; twice', '# not a pragma', '[ bonds ]', '']),
-    st.text(alphabet=_ALPHA + '   ;#[]', min_size=1, max_size=12).map(str.strip),
-)
+_comment = st.sampled_from(['a comment', 'x', 'BB-SC1 ; twice', '# not a pragma', '[ bonds ]', '', 'a  b', '#endif',
+                            'BB SC1', '1 2 1 0.47', ';', 'comment'])
+_free_comment = st.text(alphabet=_ALPHA + '   ;#[]', min_size=1, max_size=12).map(str.strip)
 
 
 @st.composite
@@ -143,6 +145,11 @@ def _molecule_case(draw, broken=False):
         st.tuples(_atype, st.integers(0, 9999), _resname, _atomname, st.integers(0, 999), _number, _number,
                   st.sampled_from(['both', 'both', 'charge', 'none', 'none', 'mass'])),
         min_size=n, max_size=n))
+    rows = [list(row) for row in rows]
+    for i, field, token in draw(st.lists(st.tuples(st.integers(0, n - 1), st.sampled_from([0, 2, 3]), _token), max_size=2)):
+        rows[i][field] = token
+    for i, field, value in draw(st.lists(st.tuples(st.integers(0, n - 1), st.sampled_from([5, 6]), _any_float), max_size=3)):
+        rows[i][field] = value
     mass_only_allowed = cm_mode == 'mass-only' and draw(st.integers(0, 3)) == 0
     nodes = []
     for i, (atype, resid, resname, atomname, cgnr, charge, mass, per_node) in enumerate(rows):
@@ -150,7 +157,7 @@ def _molecule_case(draw, broken=False):
         if have == 'mass' and not mass_only_allowed:
             have = 'both'
         if atomid_mode == 'partial':
-            atomname = '%s%d' % (atomname, i)   # rows must be identifiable, the order is not prescribed
+            atomname = '%s_n%d' % (atomname, i)   # rows must be identifiable, the order is not prescribed
         nodes.append({
             'key': keys[i], 'atype': atype, 'resid': resid, 'resname': resname, 'atomname': atomname,
             'charge_group': cgnr,
@@ -211,6 +218,13 @@ def _molecule_case(draw, broken=False):
             meta['edge'] = False
         interactions.append({'sec': sec, 'atoms': atoms, 'params': params, 'meta': meta})
     if interactions:
+        extra_param = st.one_of(_token, _any_float, st.integers(-10**6, 10**6))
+        for idx, value, comment in draw(st.lists(st.tuples(st.integers(0, len(interactions) - 1), extra_param,
+                                                           st.one_of(st.none(), _free_comment)), max_size=2)):
+            if interactions[idx]['sec'] not in ('exclusions', 'virtual_sitesn'):
+                interactions[idx]['params'].append(value)
+            if comment is not None:
+                interactions[idx]['meta']['comment'] = comment
         for src, how in draw(st.lists(st.tuples(st.integers(0, len(interactions) - 1),
                                                  st.sampled_from(['exact', 'exact', 'version', 'reversed', 'guard', 'params'])),
                                        max_size=3)):
@@ -238,7 +252,7 @@ def _molecule_case(draw, broken=False):
         'moltype': draw(st.one_of(st.sampled_from(['molecule_0', 'TEST', 'Protein_A']), _token)),
         'moltype_via': draw(st.sampled_from(['meta', 'meta', 'arg', 'both'])),
         'nrexcl': draw(st.integers(0, 5)),
-        'header': draw(st.one_of(st.just([]), st.lists(_comment.filter(bool), min_size=1, max_size=3))),
+        'header': draw(st.one_of(st.just([]), st.lists(st.one_of(_comment, _free_comment).filter(bool), min_size=1, max_size=3))),
         'define': draw(st.one_of(st.just(None), st.just(None), st.lists(
             st.tuples(st.sampled_from(['POSRES_FC', 'FLEXIBLE', 'K_B', 'X1']), st.one_of(st.integers(0, 5000), _token)),
             min_size=0, max_size=3, unique_by=lambda t: t[0]).map(lambda l: [list(t) for t in l]))),
